@@ -545,6 +545,9 @@ func (fc *FuncCtx) applyContract(con *Contract, callee *ssa.Function, sig *types
 	}
 	envPost := &Env{fc: fc, vars: evars, st: post, old: st}
 	for i, c := range con.Ensures {
+		if strings.Contains(c.Src, "ret(") {
+			continue // refers to call sites inside the callee: not meaningful to callers
+		}
 		var t string
 		if err := catchTr(fmt.Sprintf("%s ensures %d (at call in %s)", con.Key, i, fc.fnName), func() { t = envPost.trBool(c.E) }); err != nil {
 			panic(trErr(err.Error()))
